@@ -67,6 +67,7 @@ import (
 	"example.com/scion-time/net/ntske"
 
 	"verif/harness/c03/react"
+	"verif/harness/c05nts/kepeer"
 	"verif/harness/internal/vio"
 )
 
@@ -328,6 +329,11 @@ type lane struct {
 	// what the client did with each crafted datagram)
 	failed int
 	fast   bool
+	// TestC05Assoc (assoc_test.go): the scripted key-exchange peer that stands in for the
+	// project's NTS-KE server, and the keys of the client's previous association
+	ke      *kepeer.Peer
+	old     *keData
+	nocount bool // the running call is meant to fail: it does not count towards "failed"
 }
 
 const (
@@ -355,7 +361,7 @@ func selfSigned(ip net.IP) tls.Certificate {
 
 var discard = slog.New(slog.DiscardHandler)
 
-func newLane(t *testing.T, idx int, cert tls.Certificate, seed int64) *lane {
+func newLane(t *testing.T, idx int, cert tls.Certificate, seed int64, scripted bool) *lane {
 	pid := os.Getpid()
 	ip := net.IPv4(127, byte(128+(pid>>8)&63), byte(pid&255), byte(idx+1)).To4()
 	oip := net.IPv4(127, byte(192+(pid>>8)&63), byte(pid&255), byte(idx+1)).To4()
@@ -364,7 +370,15 @@ func newLane(t *testing.T, idx int, cert tls.Certificate, seed int64) *lane {
 	l.prov = ntske.NewProvider()
 	ctx := context.Background()
 	tlsCfg := &tls.Config{Certificates: []tls.Certificate{cert}, NextProtos: []string{"ntske/1"}, MinVersion: tls.VersionTLS13}
-	server.StartNTSKEServerIP(ctx, discard, ip, proxyPort, tlsCfg, l.prov)
+	if scripted {
+		var err error
+		mint := func(c2s, s2c []byte, n int) [][]byte { return l.mint(&keData{c2s: c2s, s2c: s2c}, n) }
+		if l.ke, err = kepeer.New(&net.TCPAddr{IP: ip, Port: ntske.ServerPortIP}, cert, mint, seed+int64(idx)); err != nil {
+			t.Fatal(err)
+		}
+	} else {
+		server.StartNTSKEServerIP(ctx, discard, ip, proxyPort, tlsCfg, l.prov)
+	}
 	prometheus.DefaultRegisterer = prometheus.NewRegistry() // StartIPServer registers its counters once per call
 	server.StartIPServer(ctx, discard, &net.UDPAddr{IP: ip, Port: srvPort}, 0, l.prov)
 	var err error
@@ -430,7 +444,9 @@ func (l *lane) startCall() {
 // returned notes that the running call has ended with r.
 func (l *lane) returned(r callResult) {
 	l.done, l.last, l.stash = nil, r, nil
-	if r.err != nil {
+	if r.err != nil && l.nocount {
+		// (TestC05Assoc: a call that fails because its key exchange is made to fail)
+	} else if r.err != nil {
 		if l.failed++; l.failed >= 3 {
 			l.fast = true
 		}
@@ -751,7 +767,11 @@ func (l *lane) concretise(d dgram, g []byte, req *ntp.Packet, il bool, stale ntp
 			rand.Read(key)
 			how = "wrongKey:random"
 		}
-		b = seal(hdr, l.mint(k, ncookies), key, uid)
+		ck := k
+		if l.old != nil { // the keys (and cookies) of the client's previous association
+			key, ck, how = l.old.s2c, l.old, "wrongKey:old"
+		}
+		b = seal(hdr, l.mint(ck, ncookies), key, uid)
 	case "truncated":
 		b = seal(hdr, l.mint(k, ncookies), k.s2c, uid)
 		_, authPos, _, _, ok := splitReply(b)
@@ -880,7 +900,7 @@ func TestC05Nts(t *testing.T) {
 	for i := range lanes {
 		pid := os.Getpid()
 		ip := net.IPv4(127, byte(128+(pid>>8)&63), byte(pid&255), byte(i+1)).To4()
-		lanes[i] = newLane(t, i, selfSigned(ip), vio.Seed()) // sequentially: swaps prometheus.DefaultRegisterer
+		lanes[i] = newLane(t, i, selfSigned(ip), vio.Seed(), false) // sequentially: swaps prometheus.DefaultRegisterer
 	}
 	var wg sync.WaitGroup
 	var mu sync.Mutex
